@@ -127,7 +127,61 @@ def check_from_catalog(ctx, case):
 
 
 # ------------------------------------------------------------------ check
+def check_f32_origins(ctx, case):
+    """Lattice whose origins went through single precision once (grid read from a binary file and cast to double: -125.30000305 for
+    -125.3), spacing given.  Every origin is within 4e-6 deg of its decimal, far less than half a cell, so the cells are the decimal
+    ones for every event placed at least a quarter cell away from the cell boundaries: counted exactly once, in its own cell."""
+    from csep.core.catalogs import CSEPCatalog
+    L = lattice.Lattice(case["region"])
+    edges = mag_edges(case["mags"])
+    mags = numpy.array(edges)
+    hm = float(case["mags"]["step"])
+    o = call(lambda: L.build("from_origins", magnitudes=mags))
+    if not o.ok:
+        ctx.unexpected(o, "f32_origins:build")
+        return
+    region = o.value
+    ev, want = [], numpy.zeros((len(L.cells), len(edges)))
+    for i, (k, fx, fy, m) in enumerate(case["events"]):
+        ci, cj = L.cells[k]
+        lon = exact.fl(L.lon0 + ci * L.dh) + L.fdh * fx / 4
+        lat = exact.fl(L.lat0 + cj * L.dh) + L.fdh * fy / 4
+        ev.append(("e%d" % i, 1000 * i, lat, lon, 5.0, edges[m] + hm / 2))
+        want[k, m] += 1
+    ctx.count("f32_origin_lattices")
+    lons, lats = numpy.array([e[3] for e in ev]), numpy.array([e[2] for e in ev])
+    if ev:
+        g = call(lambda: region.get_index_of(lons, lats))
+        got = ctx.normalize("f32_origins:get_index_of", lambda: [int(x) for x in numpy.asarray(g.value).ravel()]) if g.ok else None
+        if not g.ok:
+            if isinstance(g.exc, ValueError):
+                ctx.violation("f32_origins:interior_event_rejected", {"n_events": len(ev), "exc": repr(g.exc)[:120]})
+            else:
+                ctx.unexpected(g, "f32_origins:get_index_of")
+        elif got is not None and got != [e[0] for e in case["events"]]:
+            bad = next(i for i, (a, b) in enumerate(zip(got, [e[0] for e in case["events"]])) if a != b) if len(got) == len(ev) else -1
+            ctx.violation("f32_origins:interior_event_in_another_cell", {"event": bad, "got": got[bad] if bad >= 0 else len(got), "want": case["events"][bad][0] if bad >= 0 else len(ev)})
+    cat = CSEPCatalog(data=ev, region=region)
+    for name, fn, ref in (("spatial_counts", lambda: cat.spatial_counts(), want.sum(axis=1)), ("spatial_magnitude_counts", lambda: cat.spatial_magnitude_counts(), want)):
+        if not ev and name == "spatial_counts":
+            pass
+        c = call(fn)
+        if not c.ok:
+            if isinstance(c.exc, ValueError) and ev:
+                ctx.violation("f32_origins:%s_rejects_interior_events" % name, {"n_events": len(ev), "exc": repr(c.exc)[:120]})
+            elif ev:
+                ctx.unexpected(c, "f32_origins:" + name)
+            continue
+        arr = ctx.normalize("f32_origins:" + name, lambda: numpy.asarray(c.value, dtype=float))
+        if arr is None:
+            continue
+        if arr.shape != ref.shape or not numpy.array_equal(arr, ref):
+            ctx.violation("f32_origins:%s_wrong" % name, {"got_total": float(arr.sum()) if arr.size else 0.0, "want_total": float(ref.sum()), "shape": list(arr.shape)})
+
+
 def check_case(ctx, case):
+    if case.get("family") == "f32_origins":
+        return check_f32_origins(ctx, case)
     if case.get("family") == "quad_from_catalog":
         return check_from_catalog(ctx, case)
     from csep.core.catalogs import CSEPCatalog
@@ -582,7 +636,26 @@ def from_catalog_cases(draw):
     return {"family": "quad_from_catalog", "points": pts, "threshold": draw(st.integers(1, 6)), "zoom": draw(st.integers(2, 7)), "mags": mc}
 
 
+@st.composite
+def f32_cases(draw):
+    rc = draw(lattice.lattices(max_n=8, flags=False, spacings=["0.1", "0.05", "0.2", "0.25", "0.5", "1", "0.125", "0.01"]))
+    rc["dh_mode"] = "decimal"
+    rc["origin_mode"] = "f32"
+    nc = len(rc["cells"])
+    mc = {"start": draw(st.sampled_from(["4.95", "2.5", "4.0"])), "step": draw(st.sampled_from(["0.1", "0.5", "1"])), "n": draw(st.integers(1, 4))}
+    ev = draw(st.lists(st.tuples(st.integers(0, nc - 1), st.integers(1, 3), st.integers(1, 3), st.integers(0, mc["n"] - 1)).map(list), max_size=30))
+    if draw(st.booleans()):
+        ev = ev + [[k, 2, 2, 0] for k in range(nc)]       # one event in the centre of every cell
+    return {"family": "f32_origins", "region": rc, "mags": mc, "events": ev}
+
+
 def run(ctx):
+    def fn4(c, case):
+        check_case(c, case)
+        c.record(case, len(case["events"]) >= 2 and len(case["region"]["cells"]) >= 2, "f32_origins")
+
+    ctx.drive(f32_cases(), ctx.n(60, 600), fn=fn4, salt=4)
+
     def fn(c, case):
         check_case(c, case)
         c.record(case, bool(nontrivial(case)), "%s:%s%s" % (case["family"], case["region"]["kind"], ":explicit_over_bound" if case["mags"].get("region_grid") else ""))
